@@ -173,10 +173,25 @@ func run(c *core.Ctx) error {
 		"distinct_nontrivial = distinct (bolt epochs+files, disk listing, root files, reader files, copy files) observations in which some needed-file set is non-empty")
 	c.Assume("Linux: an unlinked file stays readable through an existing mmap; the check looks at directory entries")
 	// 1. the model decides
-	for _, cfg := range []string{"ScorchDisk_mc_disk.cfg", "ScorchDisk_mc_copy.cfg"} {
+	cfgs := []string{"ScorchDisk_mc_disk.cfg", "ScorchDisk_mc_reader.cfg"}
+	if c.Thorough() {
+		cfgs = append(cfgs, "ScorchDisk_mc_copy.cfg", "ScorchDisk_mc_disk_thorough.cfg")
+	}
+	for _, cfg := range cfgs {
 		if _, ok := c.ModelCheck("ScorchDisk", cfg, core.Workers(8), core.Timeout(25*time.Minute), core.Heap(8000)); !ok {
 			return nil
 		}
+	}
+	// the reader clause has an open known finding: TLC refutes it in a config of
+	// its own; the counterexample is the schedule the directed scenario replays
+	if res, ok := c.ModelRefutes("ScorchDisk", "ScorchDisk_mc_readerfinding.cfg", "ReaderFilesOnDisk", core.Workers(8), core.Timeout(25*time.Minute), core.Heap(8000)); ok && res != nil {
+		var sched []string
+		for _, st := range res.CounterEx {
+			sched = append(sched, st.Action)
+		}
+		c.Extra("reader_finding_model_schedule", sched)
+	} else if !ok {
+		return nil
 	}
 	// 2. observations of the real code
 	var all []any
